@@ -49,8 +49,6 @@ use crate::api::{
 mod async_io;
 mod config;
 mod file_handle;
-#[cfg(fuse_backend_rs_verif)]
-pub mod verif_sched;
 mod inode_store;
 mod mount_fd;
 mod os_compat;
@@ -58,6 +56,8 @@ mod overlay;
 mod statx;
 mod sync_io;
 mod util;
+#[cfg(fuse_backend_rs_verif)]
+pub mod verif_sched;
 
 type Inode = u64;
 type Handle = u64;
